@@ -378,7 +378,19 @@ def run(ctx):
     ]
     hs = fixed + choreographies() + hs
     scs = [to_scenario(h) for h in hs]
+    for sc in scs:
+        sc.setdefault("timeout_ms", 60000)              # generous: a slow machine is not a verdict
+        sc.setdefault("scenario_timeout_ms", 300000)
     results = e2e.run_scenarios(ctx, scs, timeout=1500, shards=4 if ctx.quick else 8)
+
+    def inconclusive(r):
+        return (not r.get("ok")) or any(x.get("timeout") for c in r.get("connections", []) for x in c.get("responses", []))
+    again = [i for i, r in enumerate(results) if inconclusive(r) and not r.get("panics")]
+    if again:
+        # the runner itself gave up (timeouts under load): once more, alone
+        for i, r in zip(again, e2e.run_scenarios(ctx, [scs[i] for i in again], timeout=1500, shards=1)):
+            results[i] = r
+        ctx.notes.append("%d histories were run a second time because the runner timed out on the first attempt" % len(again))
     ctx.log("implementation: %d histories run" % len(results))
 
     # ---------------- model ----------------
